@@ -112,11 +112,19 @@ def judge(prog, run, r):
                     k, c["args"], c["before"], c["after"], exp))
                 return
             open_before = set()
+            entered_at = {}
             for e in ev[:w0]:
                 if e[1] == "E":
                     open_before.add(e[2])
+                    entered_at[e[2]] = e[0]
                 elif e[1] == "X":
                     open_before.discard(e[2])
+            # a pool doer object can have finished under this scheduler (it stays listed in .doers) and be running a
+            # new lifecycle under ANOTHER scheduler: that lifecycle is not this scheduler's to close
+            for n in list(open_before):
+                hosts = [h for (sq, nm, h) in run.ctx.host_log if nm == n and sq <= entered_at.get(n, -1)]
+                if hosts and (getattr(hosts[-1], "vname", None) or "doist") != c["host"]:
+                    open_before.discard(n)
             for n in targets:
                 mine = [e[1] for e in win if e[2] == n and e[1] != "x"]
                 if n == c["by"]:
